@@ -28,6 +28,14 @@ def main():
             h, s = cpprep.render(mods, d, job.get("cse", True), tmp, kind="ekf", presentation=pres, via_entry=True)
             rec["header"] = hashlib.sha256(open(h, "rb").read()).hexdigest()
             rec["source"] = hashlib.sha256(open(s, "rb").read()).hexdigest()
+            if job.get("twice"):
+                # the same generator object rendered twice (header, source, source, header)
+                model2, symtab2 = build.make_ui_model(d, ui, container=pres.get("container", set), order=pres.get("order"), as_string=pres.get("as_string", False))
+                pn, sm, sn, cm = build.ekf_args(d, symtab2, order=pres.get("order"))
+                g = cpp._generate_ekf_function_bodies(h, cpprep.NS, model2, pn, sm, sn, cm, {"common_subexpression_elimination": job.get("cse", True)})
+                h1 = "\n".join(cpp.header_from_ast(generator=g)); s1 = "\n".join(cpp.source_from_ast(generator=g))
+                s2 = "\n".join(cpp.source_from_ast(generator=g)); h2 = "\n".join(cpp.header_from_ast(generator=g))
+                rec["twice_same"] = bool(h1 == h2 and s1 == s2)
             import pyrep
             impl, model, symtab = pyrep.build_py(d, ui, python, job.get("cse", True), True, pres)
             layout = {"state": [str(x) for x in impl.arglist_state], "control": [str(x) for x in impl.arglist_control],
